@@ -243,3 +243,275 @@ def _try(F, N, D, nname, dname, is_method, extra, nparams, Equiv, _canon_params)
                         if x is a:
                             val[i] = new
     return True
+
+
+# ----------------------------------------------------------------------------------------------------------------------
+# partial(<new helper>, captured...)  viewed as the closure it replaced
+
+
+def _is_partial(call) -> bool:
+    f = call.func
+    return (isinstance(f, ast.Name) and f.id == "partial") or (isinstance(f, ast.Attribute) and f.attr == "partial" and isinstance(f.value, ast.Name) and f.value.id == "functools")
+
+
+def _own_stores(fn) -> dict[str, list[ast.AST]]:
+    """names bound in fn's own scope (not in nested scopes), with their binding nodes; parameters count as one binding"""
+    out: dict[str, list[ast.AST]] = {}
+    a = fn.args
+    for x in [*a.posonlyargs, *a.args, *a.kwonlyargs, *([a.vararg] if a.vararg else []), *([a.kwarg] if a.kwarg else [])]:
+        out.setdefault(x.arg, []).append(x)
+
+    def walk(n, in_loop):
+        for c in ast.iter_child_nodes(n):
+            if isinstance(c, (*FuncT, ast.Lambda, ast.ClassDef)):
+                if not isinstance(c, ast.Lambda):
+                    out.setdefault(c.name, []).append(c)
+                continue
+            if isinstance(c, ast.Name) and isinstance(c.ctx, (ast.Store, ast.Del)):
+                out.setdefault(c.id, []).append(("loop", c) if in_loop else c)
+            walk(c, in_loop or isinstance(c, (ast.For, ast.While, ast.AsyncFor)))
+
+    walk(fn, False)
+    return out
+
+
+def _bound_once(F, name: str, stores, site=None) -> bool:
+    """every binding of the name in F is outside any loop and textually before `site` (where the partial / closure is
+    made): a closure reading it late sees what a partial froze early"""
+    s = stores.get(name, [])
+    if not s or any(isinstance(x, tuple) for x in s):
+        return False
+    if len(s) == 1:
+        return True
+    if site is None:
+        return False
+    at = (site.lineno, site.col_offset)
+    return all(isinstance(x, ast.arg) or (getattr(x, "lineno", 10**9), getattr(x, "col_offset", 0)) < at for x in s)
+
+
+def _enclosing_functions(tree):
+    for node in tree.body:
+        if isinstance(node, FuncT):
+            yield node.name, node, None
+        elif isinstance(node, ast.ClassDef):
+            for sub in node.body:
+                if isinstance(sub, FuncT):
+                    yield f"{node.name}.{sub.name}", sub, node
+
+
+def departial(tree: ast.Module, ref_defs: dict[str, ast.AST]) -> list[str]:
+    """`partial(N, a, b, k=v)` of a helper N that the reference does not have, referenced nowhere else, is the closure
+    `def g(rest): <body of N with its bound parameters replaced by a, b, v>` when a, b, v are names bound once in the
+    enclosing function (a closure reads them when it runs, a partial when it is made: the same for such names)."""
+    done: list[str] = []
+    new_funcs: dict[str, tuple] = {}
+    for node in tree.body:
+        if isinstance(node, FuncT) and node.name not in ref_defs and not node.decorator_list:
+            new_funcs[node.name] = (node, None, tree.body, False)
+        elif isinstance(node, ast.ClassDef):
+            for sub in node.body:
+                if isinstance(sub, FuncT) and f"{node.name}.{sub.name}" not in ref_defs:
+                    decos = [ast.unparse(d) for d in sub.decorator_list]
+                    if decos in ([], ["staticmethod"]):
+                        new_funcs[sub.name] = (sub, node, node.body, decos == ["staticmethod"])
+    if not new_funcs:
+        return done
+    for nname, (N, ncls, container, static) in list(new_funcs.items()):
+        is_method = ncls is not None
+        all_refs = _refs(tree, nname, is_method)
+        if not all_refs or _refs(N, nname, is_method):
+            continue
+        host = None
+        for q, F, cls in _enclosing_functions(tree):
+            if F is N:
+                continue
+            inside = {id(n) for n in _refs(F, nname, is_method)}
+            if inside and all(id(n) in inside for n in all_refs) and (not is_method or cls is ncls):
+                host = (q, F)
+        if host is None:
+            continue
+        q, F = host
+        Fr = ref_defs.get(q)
+        parents = {}
+        for p in ast.walk(F):
+            for c in ast.iter_child_nodes(p):
+                parents[c] = p
+        a = N.args
+        if a.vararg or a.kwarg or a.posonlyargs or any(d is not None for d in a.kw_defaults):
+            continue
+        if not all(isinstance(d, ast.Constant) for d in a.defaults):
+            continue
+        pos = [x.arg for x in a.args]
+        kwonly = [x.arg for x in a.kwonlyargs]
+        stores = _own_stores(F)
+        nstores = _own_stores(N)
+        sites = []
+        ok = True
+        for r in all_refs:
+            call = parents.get(r)
+            if not (isinstance(call, ast.Call) and _is_partial(call) and call.args and call.args[0] is r):
+                ok = False
+                break
+            if any(isinstance(x, ast.Starred) for x in call.args) or any(k.arg is None for k in call.keywords):
+                ok = False
+                break
+            given: dict[str, ast.AST] = {}
+            params = list(pos)
+            if is_method and not static:
+                if not (isinstance(r.value, ast.Name) and r.value.id in ("self", "cls")):
+                    ok = False
+                    break
+                given[params[0]] = r.value
+                params = params[1:]
+            elif is_method and not (isinstance(r.value, ast.Name) and r.value.id in ("self", "cls", ncls.name)):
+                ok = False
+                break
+            bound_pos = call.args[1:]
+            if len(bound_pos) > len(params):
+                ok = False
+                break
+            for p, v in zip(params, bound_pos):
+                given[p] = v
+            for k in call.keywords:
+                if k.arg in given or k.arg not in [*params, *kwonly]:
+                    ok = False
+                    break
+                given[k.arg] = k.value
+            if not ok:
+                break
+            rest_pos = [p for p in params if p not in given]
+            # parameters bound by keyword must come after every parameter left open
+            if rest_pos and any(params.index(p) < params.index(rest_pos[-1]) for p in given if p in params and params.index(p) >= len(bound_pos)):
+                ok = False
+                break
+            for p, v in given.items():
+                if not isinstance(v, ast.Name) or not _bound_once(F, v.id, stores, call):
+                    ok = False
+                    break
+                if len(nstores.get(p, [])) != 1:  # the helper rebinds the parameter: a closure would need nonlocal
+                    ok = False
+                    break
+                if v.id != p and v.id in nstores:  # capture
+                    ok = False
+                    break
+            if not ok:
+                break
+            sites.append((call, given, rest_pos))
+        if not ok or not sites:
+            continue
+        # names for closures that are not bound by a plain assignment: the nested functions the reference has and F lost
+        have = {n.name for n in ast.walk(F) if isinstance(n, FuncT) and n is not F}
+        refnested = [n.name for n in ast.walk(Fr) if isinstance(n, FuncT) and n is not Fr] if Fr is not None else []
+        lost = [x for x in refnested if x not in have]
+        if len(set(refnested)) == 1:
+            lost = refnested * len(sites)
+        for i, (call, given, rest_pos) in enumerate(sorted(sites, key=lambda s: (s[0].lineno, s[0].col_offset))):
+            # the statement holding the call, and the block holding that statement
+            st = call
+            while not isinstance(st, ast.stmt):
+                st = parents[st]
+            holder = parents[st]
+            block = next(v for _, v in ast.iter_fields(holder) if isinstance(v, list) and any(x is st for x in v))
+            k = next(j for j, x in enumerate(block) if x is st)
+            direct = isinstance(st, ast.Assign) and st.value is call and len(st.targets) == 1 and isinstance(st.targets[0], ast.Name)
+            name = st.targets[0].id if direct else (lost[i] if i < len(lost) else f"_closure{i}")
+            body = copy.deepcopy(N.body)
+            sub = {p: v for p, v in given.items() if v.id != p}
+            holder_fn = ast.FunctionDef(
+                name=name,
+                args=ast.arguments(
+                    posonlyargs=[],
+                    args=[copy.deepcopy(x) for x in a.args if x.arg in rest_pos],
+                    vararg=None,
+                    kwonlyargs=[copy.deepcopy(x) for x in a.kwonlyargs if x.arg not in given],
+                    kw_defaults=[None for x in a.kwonlyargs if x.arg not in given],
+                    kwarg=None,
+                    defaults=[copy.deepcopy(d) for x, d in zip(a.args[len(a.args) - len(a.defaults):], a.defaults) if x.arg in rest_pos],
+                ),
+                body=body,
+                decorator_list=[],
+                returns=None,
+                type_params=[],
+            )
+            if sub:
+                holder_fn = _Sub(sub).visit(holder_fn)
+            ast.copy_location(holder_fn, st)
+            ast.fix_missing_locations(holder_fn)
+            ast.increment_lineno(holder_fn, 0)
+            if direct:
+                block[k] = holder_fn
+            else:
+                new = ast.copy_location(ast.Name(id=name, ctx=ast.Load()), call)
+                par = parents[call]
+                for fld, val in ast.iter_fields(par):
+                    if val is call:
+                        setattr(par, fld, new)
+                    elif isinstance(val, list):
+                        for j, x in enumerate(val):
+                            if x is call:
+                                val[j] = new
+                block.insert(k, holder_fn)
+            done.append(f"{q}: partial({nname}, ...) viewed as the closure {name}")
+        if N in container:
+            container.remove(N)
+    return done
+
+
+DISCARDING_CONSUMERS = {"add_done_callback"}  # callers that ignore what the callback returns
+
+
+def closures_to_partial(F, Fr) -> list[str]:
+    """`def g(p...): [return] T(p..., k=v, ...)` used once as a value is `partial(T, k=v, ...)` when the reference has that
+    partial: a forwarding closure over names bound once."""
+    want = {ast.unparse(c.args[0]) for c in ast.walk(Fr) if isinstance(c, ast.Call) and _is_partial(c) and c.args}
+    if not want:
+        return []
+    done = []
+    parents = {}
+    for p in ast.walk(F):
+        for c in ast.iter_child_nodes(p):
+            parents[c] = p
+    stores = _own_stores(F)
+    for g in [n for n in ast.walk(F) if isinstance(n, ast.FunctionDef) and n is not F]:
+        if g.decorator_list or len(g.body) != 1 or not isinstance(g.body[0], (ast.Return, ast.Expr)):
+            continue
+        call = g.body[0].value
+        if not isinstance(call, ast.Call) or ast.unparse(call.func) not in want:
+            continue
+        a = g.args
+        if a.vararg or a.kwarg or a.kwonlyargs or a.defaults or a.posonlyargs:
+            continue
+        params = [x.arg for x in a.args]
+        if [ast.unparse(x) for x in call.args] != params or any(k.arg is None for k in call.keywords):
+            continue
+        if not all(isinstance(k.value, ast.Name) and k.value.id not in params and _bound_once(F, k.value.id, stores, g) for k in call.keywords):
+            continue
+        root = call.func
+        while isinstance(root, ast.Attribute):
+            root = root.value
+        if not (isinstance(root, ast.Name) and _bound_once(F, root.id, stores, g)):
+            continue
+        uses = [n for n in ast.walk(F) if isinstance(n, ast.Name) and n.id == g.name and isinstance(n.ctx, ast.Load)]
+        if len(uses) != 1 or len(stores.get(g.name, [])) != 1:
+            continue
+        use = uses[0]
+        par = parents.get(use)
+        if isinstance(g.body[0], ast.Expr):
+            # the closure returns None, the partial what T returns: the same only for a consumer that ignores it
+            if not (isinstance(par, ast.Call) and use in par.args and isinstance(par.func, ast.Attribute) and par.func.attr in DISCARDING_CONSUMERS):
+                continue
+        new = ast.copy_location(ast.Call(func=ast.Name(id="partial", ctx=ast.Load()), args=[copy.deepcopy(call.func)], keywords=[copy.deepcopy(k) for k in call.keywords]), use)
+        ast.fix_missing_locations(new)
+        for fld, val in ast.iter_fields(par):
+            if val is use:
+                setattr(par, fld, new)
+            elif isinstance(val, list):
+                for j, x in enumerate(val):
+                    if x is use:
+                        val[j] = new
+        holder = parents[g]
+        for _, val in ast.iter_fields(holder):
+            if isinstance(val, list) and any(x is g for x in val):
+                val.remove(g)
+        done.append(f"forwarding closure {g.name} viewed as partial({ast.unparse(call.func)}, ...)")
+    return done
